@@ -231,6 +231,24 @@ def run_case(spec):
     P = np.array([[ds.X[i], ds.X[i + 1]] for i in range(6)])
     for mal, bad in point_malformations(Q, d, pre).items():
         evals += expect_value_error(viol, sigs, name + '.transform', mal, pre, est.transform, bad)
+    # the SAME array object, accepted once, then edited in place (NaN / inf written into it) and handed over again: validity is a
+    # property of the content at call time, not of the object
+    for val_name, val in (('nan', np.nan), ('posinf', np.inf)):
+        buf = np.array(Q, dtype=float)
+        est.transform(buf)
+        buf[1, 0] = val
+        evals += expect_value_error(viol, sigs, name + '.transform', 'same_array_edited_in_place_' + val_name, pre, est.transform, buf)
+        pbuf = np.array(P, dtype=float)
+        est.pair_distance(pbuf)
+        pbuf[1, 0, 0] = val
+        evals += expect_value_error(viol, sigs, name + '.pair_distance', 'same_array_edited_in_place_' + val_name, pre, est.pair_distance, pbuf)
+        if not pre:
+            targs = zoo.train_args(name, ds, 'formed')
+            tbuf = np.array(targs[0], dtype=float)
+            e2 = zoo.make(name, ds, **over)
+            e2.fit(tbuf, *targs[1:])
+            tbuf[(1,) + (0,) * (tbuf.ndim - 1)] = val
+            evals += expect_value_error(viol, sigs, name + '.fit', 'same_array_edited_in_place_' + val_name, pre, e2.fit, tbuf, *targs[1:])
     pm = tuple_malformations(P, d, pre)
     for meth in ('pair_distance', 'pair_score', 'score_pairs'):
         for mal, bad in pm.items():
